@@ -50,6 +50,11 @@ def handleDone (k : Kind) (outId : Nat) (s : BSt) (f : GIn) : BSt :=
 
 def initSt (ids : List Nat) : BSt := { fs := ids }
 
+/-- the keys of the dict `self.fs` after `for f in fs: self.fs[f] = True`, in insertion order: one key per DISTINCT input
+(`f_or(a, a, b)` registers and waits for a and b once each; K5 `registersOncePerKey` is the regenerated fact) -/
+def keysOf (args : List Nat) : List Nat :=
+  args.foldl (fun acc i => if i ∈ acc then acc else acc ++ [i]) []
+
 /-- The outcome of a finished input as the combinators read it. -/
 def outcomeOf (f : GIn) : Outcome :=
   if f.cancelled then .cancelled
